@@ -44,7 +44,7 @@ def parse_reference_path(ref_path_raw: str) -> Union[ReferencePath, ParseError]:
         parsed = urlparse(ref_path_raw)
     except ValueError:
         return ParseError(detail=f"{ref_path_raw} is not a valid reference.")
-    if parsed.scheme or parsed.path:
+    if parsed.scheme or parsed.netloc or parsed.path or parsed.query:
         return ParseError(detail=f"Remote references such as {ref_path_raw} are not supported yet.")
     return cast(ReferencePath, parsed.fragment)
 
